@@ -359,6 +359,17 @@ func genCall(r *Rand, pool []key3) event {
 
 // ---------- running a history on the real code ----------
 
+// CB renders a byte string as the Coq term (B len 0xHEX) of Corr/C27.v.
+func CB(b []byte) string {
+	if len(b) == 0 {
+		return "(B 0 0)"
+	}
+	if len(b) > 128 { // long hexadecimal literals overflow the stack of Coq's number parser
+		return "(" + CB(b[:128]) + " ++ " + CB(b[128:]) + ")"
+	}
+	return fmt.Sprintf("(B %d 0x%x)", len(b), b)
+}
+
 func regRows(ms []absnfs.PortMapping) string {
 	rows := make([]string, len(ms))
 	for i, m := range ms {
@@ -397,7 +408,7 @@ func runC27(listen string, evs []event, kind string, idx int) Case {
 		case 0:
 			reply, err = pm.VerifHandleCall(e.data, e.c.addr)
 			allow = absnfs.VerifIsLoopbackAddr(e.c.addr)
-			coqEvs = append(coqEvs, fmt.Sprintf("Call %s %s", e.c.coq, CBytes(e.data)))
+			coqEvs = append(coqEvs, fmt.Sprintf("Call %s %s", e.c.coq, CB(e.data)))
 			tags["caller."+e.c.kind]++
 			lab := e.label
 			if i := strings.IndexByte(lab, '('); i >= 0 {
@@ -436,7 +447,7 @@ func runC27(listen string, evs []event, kind string, idx int) Case {
 			if err != nil {
 				tags["reply.none"]++
 			} else {
-				rs = "(Some " + CBytes(reply) + ")"
+				rs = "(Some " + CB(reply) + ")"
 				if len(reply) >= 24 {
 					tags["accept."+acceptNames[binary.BigEndian.Uint32(reply[20:24])]]++
 				}
@@ -458,7 +469,7 @@ func runC27(listen string, evs []event, kind string, idx int) Case {
 		}
 		coqObs = append(coqObs, fmt.Sprintf("{| o_reply := %s; o_reg := %s; o_allow := %s |}", rs, regRows(after), CBool(allow)))
 	}
-	coq := fmt.Sprintf("{| c_listen := %s; c_evs := %s; c_obs := %s |}", CBytes([]byte(listen)), CList(coqEvs), CList(coqObs))
+	coq := fmt.Sprintf("{| c_listen := %s; c_evs := %s; c_obs := %s |}", CB([]byte(listen)), CList(coqEvs), CList(coqObs))
 	return Case{Index: idx, Kind: kind, Coq: coq, Tags: tags,
 		Text: fmt.Sprintf("listen=%q %s", listen, strings.Join(txt, " "))}
 }
